@@ -249,3 +249,12 @@ Theorem C08_generated_system_countdown_start_exact : forall E fuel hs t0 en ops 
   jstatus (jobs g' j) = Paused /\ jnext (jobs g' j) = None /\ jkind (jobs g j) = KCountdown.
 Proof. exact GenSystem.gen_countdown_start_exact. Qed.
 Print Assumptions C08_generated_system_countdown_start_exact.
+(* the whole-stack tie started from the GENERATED constructors (tools/gen_init.py, gen/GenInit.v) *)
+From EAS Require GenInitEq.
+Theorem C01_generated_system_from_generated_init : forall E fuel hs t0 en ops s rs,
+  GenSystem.ops_wt E fuel hs (EASGen.GenInit.gen_init t0 en) ops ->
+  Sched.run E fuel hs (EASGen.GenInit.gen_init t0 en) ops = (s, rs) -> ~ In Sched.NoFuel rs ->
+  exists g, GenSystem.gen_run E fuel hs (EASGen.GenInit.gen_init t0 en) ops = (g, map GenSystem.oc_of rs) /\
+            SchedEqst.eqst g s.
+Proof. exact GenInitEq.gen_system_from_generated_init. Qed.
+Print Assumptions C01_generated_system_from_generated_init.
